@@ -1447,7 +1447,72 @@ def giveback_complete_rule(m, rid):
             later_nomatch = any(n.lineno > asg.lineno for n in no_match_returns)
             if not (direct or collected or returned_alone) and later_nomatch:
                 bad.append((v, asg))
-        r.ob(not bad, "%s: %s given back or collected" % (q, sorted(node_vars)))
+        # every no-match exit that can be reached with something collected gives the collection back first
+        P_ = A.parents(f.node)
+
+        def block_of(n):
+            p0 = P_.get(n)
+            for fld in ("body", "orelse", "finalbody"):
+                blk = getattr(p0, fld, None)
+                if isinstance(blk, list) and n in blk:
+                    return blk
+            return None
+
+        def loops_around(n):
+            out, x = [], n
+            while x in P_:
+                x = P_[x]
+                if isinstance(x, (ast.For, ast.While)):
+                    out.append(x)
+            return out
+
+        def gives_back(stmt, L):
+            if not isinstance(stmt, ast.For):
+                return False
+            it = stmt.iter
+            if isinstance(it, ast.Call) and A.text(it.func) == "reversed" and it.args:
+                it = it.args[0]
+            return A.text(it) == L and any(isinstance(c, ast.Call) and isinstance(c.func, ast.Attribute) and c.func.attr == "restore_reader"
+                                           for c in ast.walk(stmt))
+        unrestored = []
+        for L in sorted(restored_lists):
+            appends = [c for c in body if isinstance(c, ast.Call) and isinstance(c.func, ast.Attribute) and c.func.attr in ("append", "insert", "extend")
+                       and A.text(c.func.value) == L]
+            if not appends:
+                continue
+            for rt in no_match_returns:
+                may_hold = any(a.lineno < rt.lineno for a in appends) or \
+                    any(lp in loops_around(a) for a in appends for lp in loops_around(rt))
+                if not may_hold:
+                    continue
+                # known empty here: under `if not L` / `if len(L) == 0`
+                empty = False
+                x = rt
+                while x in P_:
+                    p0 = P_[x]
+                    if isinstance(p0, ast.If) and x in p0.body and A.text(p0.test) in ("not %s" % L, "len(%s) == 0" % L, "%s == []" % L):
+                        empty = True
+                    x = p0
+                if empty:
+                    continue
+                blk = block_of(rt) or []
+                before = blk[:blk.index(rt)] if rt in blk else []
+                given = any(gives_back(s_, L) for s_ in before)
+                # ... or the exit sits in a branch that follows a give-back loop in an enclosing block
+                x = rt
+                while not given and x in P_ and not isinstance(P_[x], (ast.FunctionDef, ast.For, ast.While)):
+                    x = P_[x]
+                    blk2 = block_of(x) or []
+                    if x in blk2:
+                        given = any(gives_back(s_, L) for s_ in blk2[:blk2.index(x)])
+                if not given:
+                    unrestored.append((L, rt))
+        r.ob(not bad and not unrestored, "%s: %s given back or collected" % (q, sorted(node_vars)))
+        for L, rt in unrestored[:2]:
+            r.fail("%s|exit-without-give-back|%s" % (q, L), "%s can report no match (line %d) while `%s` may already hold nodes built from the "
+                   "reader, without running the give-back loop over it first: the statements those nodes consumed are gone for the "
+                   "next matcher -- a labelled DO swallowed this way makes a loop without its terminating statement acceptable"
+                   % (q, rt.lineno, L), m.loc(f, rt))
         for v, asg in bad[:2]:
             r.fail("%s|not-given-back|%s" % (q, v), "%s builds `%s` from the reader (`%s`) and can report no match afterwards, but `%s` is never "
                    "given back: it is neither restored itself nor put into a collection that the give-back loop covers (%s).  The "
